@@ -80,6 +80,26 @@ CLAIMED["C08"] = {
   "technique": "Lean 4 enabledness lemma for all states + exhaustive kernel-checked table; lock-step correspondence with nested sends; stress search",
 }
 
+_IT_NOTE = "Trusted: Lean kernel + audited axioms; SC for `closed` and the SignalOnly slots (SeqCst, checked from the regenerated orderings); the self-pipe as a byte counter with capacity (capacity measured each run); readiness callbacks by their contract (blocking = one-byte read enabled iff a byte is present; non-blocking false = armed notification); one consumer per instance (&mut self); deliveries are simulated calls of the real dispatcher running the instance's real action; mio/tokio/async-std reactors are outside the model."
+CLAIMED["C09"] = {
+  "text": "Machine-checked inductive invariant on the iterator model L8 (any number of delivery and close threads, one consumer of either front-end family, any pipe capacity > 0 and initial fill, every interleaving): a delivered signal whose wake-up has completed is either announced by a byte in the pipe, or the instance is closed, or the consumer is at a point from which it compare-exchanges that signal's slot before it can block or answer Pending. Corollaries: while open, a consumer blocked in its blocking read with an empty pipe, or at/after a non-blocking callback that found nothing, or parked as Pending with an exhausted iterator, has no delivered-and-woken signal unreported; a scan reaching a set slot yields it; store precedes wake. Tied to /repo by lock-step execution of the real SignalDelivery/SignalIterator (real dispatcher + real action, callbacks as scheduling points, optionally pre-filled pipe) against L8 and a lost-wake-up monitor on the implementation trace.",
+  "design_ref": "DESIGN.md section 6 C09",
+  "note": _IT_NOTE + " Liveness ('obtains the signal') is proved in the safety form above (never stranded) plus the scan lemma, not as a temporal statement.",
+  "technique": "Lean 4 inductive invariant over an N-thread step machine + lock-step model/implementation correspondence",
+}
+CLAIMED["C10"] = {
+  "text": "Machine-checked counting invariant on L8 for every reachable state of every interleaving and every consumer front-end, also after close: for each signal number, yields so far plus the possibly pending slot never exceed the slot stores (deliveries begun) so far; every yielded number is a watched one when only watched signals have the instance's action. Tied to /repo by the lock-step iterator correspondence and a per-signal counting / slot-index monitor on the implementation trace; for the info-carrying exfiltrators the per-signal record queue is the Channel of C06/C07 (faithful copy, at most one record per delivery, delivery order) exercised by the channel checks.",
+  "design_ref": "DESIGN.md section 6 C10",
+  "note": _IT_NOTE + " The WithRawSiginfo/WithOrigin paths are covered through the channel model and the C17 real-delivery probes, not by a dedicated L8 instance.",
+  "technique": "Lean 4 inductive counting invariant + lock-step correspondence",
+}
+CLAIMED["C11"] = {
+  "text": "Machine-checked on L8 for every reachable state of every interleaving: closed is sticky (no step resets it); with the current (fixed) shape of poll_signal a non-blocking poll returns Pending only if its readiness callback was consulted during that same call and last answered 'nothing available' (inductive invariant on the re-check program point); a kernel-checked 3-step witness shows the shape before the fix violates this, and the fixed shape answers Closed on the same schedule; the shape flag is regenerated from backend.rs each run. Tied to /repo by the lock-step iterator correspondence with close() threads racing every consumer step, callback-consultation logging, and monitors (sticky flag, store-before-wake in close, Pending implies consulted-false, no consumer left blocked after a completed close).",
+  "design_ref": "DESIGN.md section 6 C11 and section 7.1",
+  "note": _IT_NOTE + " The genuine defect found by this check on the original tree was repaired by fix: commit c911cc7 (known_findings.json, fixed). 'Returns after a bounded number of steps after close' is monitored on every explored schedule (scheduler reports a consumer blocked after a completed close); its Lean bound is future work.",
+  "technique": "Lean 4 inductive invariant + kernel-checked defect witness + lock-step correspondence",
+}
+
 NOT_YET = {}
 ALL = ["C%02d" % i for i in range(1, 19)]
 
